@@ -294,7 +294,9 @@ func c07(r *core.Run) {
 	funnelFns := map[*ssa.Function]bool{}
 	for _, tn := range requestTypes {
 		if _, setters, ok := flagOf(p, "", tn); ok && len(setters) == 1 {
-			funnelFns[replyFunnel(p, setters[0])] = true
+			for _, h := range funnelWithHelpers(p, replyFunnel(p, setters[0])) {
+				funnelFns[h] = true
+			}
 		}
 	}
 	eventFunnels := map[*ssa.Function]bool{}
@@ -407,9 +409,30 @@ func c07(r *core.Run) {
 		for _, c := range core.Calls(fn) {
 			if cal := c.Common().StaticCallee(); cal != nil && eventFunnels[cal] {
 				prm := fn.Params[1]
-				r.Check(validatedBy(prm, c, "isValidPath"), "P2", core.FuncName(fn), "subject-argument-validated(isValidPath)", p.InstrPos(c), "the announced auth subject passed isValidPath on the non-panicking edge", "the token-reset subject is published without validation")
+				// both tests may sit in one predicate helper (isValidResetSubject(subject)): what its true
+				// answer implies about the argument
+				predNonEmpty, predValid := false, false
+				for _, ed := range dominatingEdges(c) {
+					cnd, succ := ed.Norm()
+					pc, ok := cnd.(*ssa.Call)
+					if !ok || succ != 0 {
+						continue
+					}
+					cal := pc.Common().StaticCallee()
+					if cal == nil || len(cal.Blocks) == 0 || cal.Pkg != fn.Pkg || cal.Name() == "isValidPath" {
+						continue
+					}
+					for i, a := range pc.Common().Args {
+						if a == ssa.Value(prm) && i < len(cal.Params) {
+							ne, va := predicateImplies(cal, cal.Params[i], "isValidPath")
+							predNonEmpty = predNonEmpty || ne
+							predValid = predValid || va
+						}
+					}
+				}
+				r.Check(predValid || validatedBy(prm, c, "isValidPath"), "P2", core.FuncName(fn), "subject-argument-validated(isValidPath)", p.InstrPos(c), "the announced auth subject passed isValidPath on the non-panicking edge", "the token-reset subject is published without validation")
 				// isValidPath accepts the empty path (a mux without prefix): the subject needs its own test
-				nonEmpty := false
+				nonEmpty := predNonEmpty
 				if vf := p.Func("isValidPath"); vf != nil && !classOf(p, vf).EmptyAccept {
 					nonEmpty = true
 				}
@@ -1616,4 +1639,71 @@ func c07MarshalersEscape(r *core.Run, rule string, root []*ssa.Function) {
 	if n == 0 {
 		r.Unres(rule, "MarshalJSON", "no json.Marshaler in the root package")
 	}
+}
+
+// predicateImplies: what a true answer of the bool predicate cal says about its
+// string parameter prm - on every way to a true result the parameter was found
+// non-empty, and the validator accepted it.
+func predicateImplies(cal *ssa.Function, prm *ssa.Parameter, validator string) (nonEmpty, valid bool) {
+	if cal.Signature.Results().Len() != 1 {
+		return false, false
+	}
+	isValidatorCall := func(v ssa.Value) bool {
+		c, ok := v.(*ssa.Call)
+		if !ok {
+			return false
+		}
+		vc := c.Common().StaticCallee()
+		return vc != nil && vc.Name() == validator && len(c.Common().Args) > 0 && c.Common().Args[0] == ssa.Value(prm)
+	}
+	nonEmpty, valid = true, true
+	n := 0
+	for _, ret := range core.Returns(cal) {
+		for _, src := range phiSources(ret.Results[0]) {
+			if isConstBool(src.V, false) {
+				continue
+			}
+			n++
+			ne, va := false, isValidatorCall(src.V)
+			for _, ed := range srcEdges(ret, src) {
+				cnd, succ := ed.Norm()
+				if isValidatorCall(cnd) && succ == 0 {
+					va = true
+				}
+				bo, ok := cnd.(*ssa.BinOp)
+				if !ok {
+					continue
+				}
+				x, y := bo.X, bo.Y
+				if _, isC := x.(*ssa.Const); isC {
+					x, y = y, x
+				}
+				if sv, isC := core.ConstString(y); isC && sv == "" && x == ssa.Value(prm) {
+					if (bo.Op == token.EQL && succ == 1) || (bo.Op == token.NEQ && succ == 0) {
+						ne = true
+					}
+				}
+				if lc, isCall := x.(*ssa.Call); isCall && core.CalleeName(lc) == "builtin:len" && lc.Common().Args[0] == ssa.Value(prm) {
+					if k, isC := core.ConstInt(y); isC {
+						switch {
+						case k == 0 && ((bo.Op == token.EQL && succ == 1) || (bo.Op == token.NEQ && succ == 0) || (bo.Op == token.GTR && succ == 0) || (bo.Op == token.LEQ && succ == 1)):
+							ne = true
+						case k == 1 && ((bo.Op == token.LSS && succ == 1) || (bo.Op == token.GEQ && succ == 0)):
+							ne = true
+						}
+					}
+				}
+			}
+			if !isConstBool(src.V, true) && !isValidatorCall(src.V) {
+				// some other value decides: nothing is implied
+				ne, va = false, false
+			}
+			nonEmpty = nonEmpty && ne
+			valid = valid && va
+		}
+	}
+	if n == 0 {
+		return false, false
+	}
+	return nonEmpty, valid
 }
